@@ -146,6 +146,65 @@ def case(args):
     return out
 
 
+LOOK = [1, 1.0, True, 0, 0.0, False]  # equal under ==, different argument identity
+
+
+def ident(x):
+    return (type(x).__name__, x)
+
+
+def lookalike_case(args):
+    """map_over_range / call_batch over values that compare equal in Python but are different arguments: every one
+    is its own call (own body run, own memento), exactly as with individual calls."""
+    from .. import audit
+    from ..fixtures import c15fx as fx
+
+    kind, batch, pre, api = args
+    top = scratch_dir("c15l")
+    out = {"evaluations": 1, "states": 1, "transitions": len(batch), "traces": 1, "violations": [], "outcomes": []}
+    try:
+        b = mk_backend(kind, os.path.join(top, "s"))
+        use(b)
+        f = fx.b2.partial(7)
+        for x in pre:
+            f(x=x)
+        audit.bodies_reset()
+        bad = None
+        try:
+            if api == "range":
+                d = f.map_over_range(x=batch)
+                if not all(any(ident(k) == ident(x) or k == x for k in d) for x in batch):
+                    bad = ("range-keys", "map_over_range(%r) returned keys %r" % (batch, list(d)))
+            else:
+                got = f.call_batch([{"x": x} for x in batch])
+                if [ident(r[1]) for r in got] != [ident(x) for x in batch]:
+                    bad = ("slot-differs", "call_batch(%r) returned %r" % (batch, got))
+        except Exception as e:
+            bad = ("raised", "%s over %r raised %r" % (api, batch, e))
+        ran = [ident(bd[1][1]) for bd in audit.bodies()]
+        if not bad:
+            for x in batch:
+                want = 0 if any(ident(x) == ident(p) for p in pre) else 1
+                if ran.count(ident(x)) != want:
+                    bad = ("body-count", "element %r ran %d times, individual calls run it %d time(s); bodies run: %r" % (x, ran.count(ident(x)), want, ran))
+                    break
+        if not bad:
+            for x in batch:
+                audit.bodies_reset()
+                r = outcome(f, x=x)
+                if audit.bodies() or r[0] != "val" or ident(r[1][1]) != ident(x):
+                    bad = ("store-differs", "after the batch, the individual call x=%r %s and gave %r" % (x, "ran its body" if audit.bodies() else "ran no body", r))
+                    break
+        if bad:
+            sig = "%s|%s|lookalike|premem:%s|%s" % (kind, api, "some" if pre else "none", bad[0])
+            out["violations"].append((sig, bad[1] + "\nbackend=%s batch=%r pre-memoized=%r api=%s" % (kind, batch, pre, api),
+                                      {"lookalike": [kind, batch, pre, api]}))
+        out["outcomes"].append("look|%s|%r|%r|%s" % (kind, batch, pre, api))
+    finally:
+        rm(top)
+    return out
+
+
 def run(ctx):
     thorough = ctx.tier == "thorough"
     n = 4 if thorough else 3
@@ -178,12 +237,34 @@ def run(ctx):
     b = case(tasks[len(tasks) // 3])
     ctx.selfcheck("one case gives identical observations twice", a["violations"] == b["violations"])
     ctx.merge(pmap(case, tasks, chunksize=16))
+    # look-alike elements (1, 1.0, True, 0, 0.0, False): duplicate-free by argument identity, colliding under ==
+    lt = []
+    for L in (2, 3):
+        for batch in itertools.permutations(LOOK if thorough else LOOK[:4], L):
+            if not any(a == b for i, a in enumerate(batch) for b in batch[i + 1:]):
+                continue  # no collision under ==: covered above
+            for r in range(2):
+                for pre in itertools.combinations(batch, r):
+                    for kind in ("mem", "fsc") if not thorough else ("mem", "fs", "fsc"):
+                        for api in ("range", "batch"):
+                            lt.append((kind, list(batch), list(pre), api))
+    ctx.merge(pmap(lookalike_case, lt, chunksize=16))
+    ctx.extra["lookalike_cases"] = len(lt)
+    ctx.rule += (" Plus batches of 2-3 elements over look-alike values (1, 1.0, True, 0, ...) that collide under == but are different "
+                 "arguments: each runs its own body once and is memoized on its own.")
     ctx.extra["cases"] = len(tasks)
     ctx.sample({"case": list(tasks[len(tasks) // 2])})
     ctx.sample({"case": list(tasks[-1])})
 
 
 def replay(ctx, art):
+    if "lookalike" in art["artefact"]:
+        c = art["artefact"]["lookalike"]
+        r = lookalike_case((c[0], c[1], c[2], c[3]))
+        for v in r["violations"]:
+            print(v[0], "\n", v[1])
+        print("REPLAY property=C15 result=%s" % bool(r["violations"]))
+        return 1 if r["violations"] else 0
     c = art["artefact"]["case"]
     r = case((c[0], c[1], [tuple(p) for p in c[2]], c[3], c[4], c[5]))
     for v in r["violations"]:
